@@ -29,7 +29,7 @@ func runSoak(id int, seed int64, clients, pushes int) *Case2 {
 	}
 	b := newBench(pars, nil)
 	b.soak = rand.New(rand.NewSource(seed + 1))
-	b2 := &bench2{bench: b, rid: map[string]int64{}, nextRid: 1, status: map[int]int{}}
+	b2 := &bench2{bench: b, rid: map[string]int64{}, nextRid: 1, status: map[int]int{}, keyRid: map[uint64]int64{}}
 	b.l2 = b2
 	rn := &runner2{c: c, b: b2}
 	maps := make([]map[string]service.IInsertServiceV2, n)
